@@ -157,7 +157,10 @@ func Main(t *testing.T, property string, workloads []Workload) {
 	outPath := os.Getenv("VERIF_OUT")
 	scale := float64(envInt("VERIF_SCALE_PCT", 100)) / 100
 	var deadline time.Time
-	if b := envInt("VERIF_BUDGET_S", 0); b > 0 {
+	// Only the thorough tier (open-ended sampling) is cut off by a time budget. The quick
+	// tier always runs its whole fixed batch: a loaded machine must not silently shrink
+	// what a quick run covers (the driver's watchdog still bounds it; that is exit 2).
+	if b := envInt("VERIF_BUDGET_S", 0); b > 0 && os.Getenv("VERIF_TIER") == "thorough" {
 		deadline = time.Now().Add(time.Duration(b) * time.Second)
 	}
 	start := time.Now()
@@ -200,6 +203,11 @@ func Main(t *testing.T, property string, workloads []Workload) {
 				continue
 			}
 			for ci, cell := range cells {
+				// development aid: restrict an enumeration to the cells whose label contains a substring
+				if m := os.Getenv("VERIF_CELL_MATCH"); m != "" && !strings.Contains(cell["cell"], m) {
+					gi++
+					continue
+				}
 				jobs = append(jobs, job{w, gi, cell, (float64(ci) + 0.5) / float64(len(cells))})
 				gi++
 			}
